@@ -541,6 +541,8 @@ class Goebner:
                         relations[second][2] - (both * linear2[both]),
                     )
 
+            if (relations[first][2] * factor1 - relations[second][2] * factor2).expand() != 0:
+                return None  # the two relations do not have the same middle term
             lhs = relations[first][0] * factor1
             opl = relations[first][1] if factor1 > 0 else rhs2lhs_comparison(relations[first][1])
             mid = relations[first][2] * factor1
